@@ -368,15 +368,18 @@ func zipArchive(files map[string][]byte, order []string) []byte {
 	return buf.Bytes()
 }
 
-// zipArchiveDamaged is zipArchive with the data of the last file entry damaged: "truncated_stream" cuts the deflate
+// zipArchiveDamaged is zipArchive with the data of the last (or, with the suffix ":first", the first) file entry damaged: "truncated_stream" cuts the deflate
 // stream before its final block, "overstated_size" announces more uncompressed bytes than the stream holds. Both
 // archives open fine; reading the entry ends early.
 func zipArchiveDamaged(files map[string][]byte, order []string, damage string) []byte {
 	var buf bytes.Buffer
 	zw := zip.NewWriter(&buf)
+	// ":first" damages the first file entry instead (the entries behind it are intact)
+	first := strings.HasSuffix(damage, ":first")
+	damage = strings.TrimSuffix(damage, ":first")
 	last := ""
 	for _, name := range order {
-		if files[name] != nil {
+		if files[name] != nil && (last == "" || !first) {
 			last = name
 		}
 	}
